@@ -311,7 +311,7 @@ func checkC09Dispatch(r *Run, vm *VisitorModel, g *Grammar, filtered map[string]
 	for _, st := range eerInl.Top {
 		if it := fullIteration(info, st); it != nil {
 			coll := resolveLocalCopy(info, eerInl.Body, it.Coll)
-			if sel, ok := ast.Unparen(coll).(*ast.SelectorExpr); ok && sel.Sel.Name == "filters" && !it.MayStopEarly {
+			if sel, ok := ast.Unparen(coll).(*ast.SelectorExpr); ok && info.Selections[sel] != nil && info.Selections[sel].Obj() == types.Object(contextFiltersField(fe)) && !it.MayStopEarly {
 				for _, bs := range it.Body.List {
 					if es, ok := bs.(*ast.ExprStmt); ok {
 						if call, ok := es.X.(*ast.CallExpr); ok {
@@ -350,17 +350,9 @@ func checkC09Dispatch(r *Run, vm *VisitorModel, g *Grammar, filtered map[string]
 		r.Fail("C09-O2-dispatch-loop", "Context.EnterEveryRule", eer.Pos(), "no unconditional `for _, f := range s.filters { ctx.EnterRule(f) }` at the head of EnterEveryRule")
 	}
 	// NewContext stores its argument as filters, and nothing else writes the field
-	var filtersField *types.Var
-	if ctxT, ok := fe.Types.Scope().Lookup("Context").(*types.TypeName); ok {
-		st := ctxT.Type().Underlying().(*types.Struct)
-		for i := 0; i < st.NumFields(); i++ {
-			if st.Field(i).Name() == "filters" {
-				filtersField = st.Field(i)
-			}
-		}
-	}
+	filtersField := contextFiltersField(fe)
 	if filtersField == nil {
-		r.Fatal("Context.filters not found")
+		r.Fatal("the field of frontend.Context that NewContext fills from its filters argument was not found")
 	}
 	nc := decls["NewContext"]
 	stored := false
@@ -391,7 +383,7 @@ func checkC09Dispatch(r *Run, vm *VisitorModel, g *Grammar, filtered map[string]
 		r.Pass("C09-O2-filters-write", "Context.filters", filtersField.Pos(), "no assignment to Context.filters anywhere in the module")
 	}
 	// parseCypher passes ctx itself to Walk
-	pc := decls["parseCypher"]
+	pc := frontendParseFunc(vm.pkg)
 	if pc == nil {
 		r.Fatal("parseCypher not found")
 	}
@@ -425,7 +417,7 @@ func checkC09Dispatch(r *Run, vm *VisitorModel, g *Grammar, filtered map[string]
 		}
 		ast.Inspect(pcx.Body, func(n ast.Node) bool {
 			if call, isCall := n.(*ast.CallExpr); isCall {
-				if fn := calleeOf(info, call); fn != nil && fn.Name() == "parseCypher" && len(call.Args) >= 1 {
+				if fn := calleeOf(info, call); fn != nil && isFrontendParseFunc(vm.pkg, fn) && len(call.Args) >= 1 {
 					if a, isId := call.Args[0].(*ast.Ident); isId && info.Uses[a] == p0 {
 						ok = true
 					}
@@ -601,7 +593,7 @@ func checkC09Errors(r *Run, vm *VisitorModel) {
 		r.Fail("C09-O3-adderrors-shape", "Context.AddErrors", token.NoPos, "AddErrors is not `for each err: if err != nil { s.Errors = append(s.Errors, err) }`")
 	}
 	// parseCypher: every return has errors.Join(ctx.Errors...) as its error result
-	pc := decls["parseCypher"]
+	pc := frontendParseFunc(vm.pkg)
 	nret, okret := 0, 0
 	pcInl := inlineFunc(vm.pkg, pc, 2)
 	// joinsErrorsOf: e is errors.Join(<ctx>.Errors...), or a call of a Context method on <ctx> whose whole body returns that
@@ -675,7 +667,7 @@ func checkC09Errors(r *Run, vm *VisitorModel) {
 				switch len(rs.Results) {
 				case 1:
 					if call, ok := ast.Unparen(rs.Results[0]).(*ast.CallExpr); ok {
-						if fn := calleeOf(info, call); fn != nil && fn.Name() == "parseCypher" {
+						if fn := calleeOf(info, call); fn != nil && isFrontendParseFunc(vm.pkg, fn) {
 							return true
 						}
 					}
